@@ -436,7 +436,7 @@ Proof.
     rewrite build_key_spec. unfold spec_key.
     destruct (spec_components (ka_inst a)) as [cs|] eqn:Ec; cbn; [|same_rel].
     destruct (sorted_b (ka_props a)) eqn:Es; cbn [fst snd k_inst k_plat].
-    + rewrite (spec_components_join _ _ Ec), String.eqb_refl, plat_eqb_refl. cbn.
+    + rewrite (spec_components_join _ _ Ec), String.eqb_refl, plat_eqb_refl, String.eqb_refl, orb_true_r. cbn.
       same_rel.
     + same_rel.
   - (* KeyEq *)
